@@ -15,30 +15,47 @@ ASA_FAMS = {"F1": {"MaxLen": 3}, "F2": {"MaxLen": 2}, "F3": {"MaxLen": 3}, "F4":
             "F7": {"MaxLen": 2}}
 
 PLAN = {
+    "C02": dict(mode="conv", tags={"EQUIV", "FIXPOINT"},
+                quick=[("ios", "F1", 5000), ("ios", "F8", 5000), ("ios", "F3", 3000),
+                       ("ios", "F4", 2500), ("ios", "F7", 2000)],
+                thorough=[("ios", "F1", None), ("ios", "F8", 60000), ("ios", "F3", None),
+                          ("ios", "F4", None), ("ios", "F7", None)]),
     "C01": dict(mode="conv", tags={"EQUIV", "FIXPOINT"},
                 quick=[("asa", "F1", 4000), ("asa", "F2", 6000), ("asa", "F3", 2000),
                        ("asa", "F4", 1500), ("asa", "F7", 2000)],
                 thorough=[("asa", "F1", None), ("asa", "F2", None), ("asa", "F3", 30000),
                           ("asa", "F4", None), ("asa", "F7", 30000)]),
     "C07": dict(mode="conv", tags={"C07"},
-                quick=[("asa", "F7", 9000), ("asa", "F2", 2000), ("asa", "F3", 1500), ("asa", "F4", 1500)],
-                thorough=[("asa", "F7", None), ("asa", "F2", 30000), ("asa", "F3", 30000), ("asa", "F4", None)]),
+                quick=[("asa", "F7", 6000), ("asa", "F2", 1500), ("asa", "F3", 1000), ("asa", "F4", 1000),
+                       ("ios", "F7", 5000), ("ios", "F3", 1500), ("ios", "F4", 1500)],
+                thorough=[("asa", "F7", None), ("asa", "F2", 30000), ("asa", "F3", 30000), ("asa", "F4", None),
+                          ("ios", "F7", None), ("ios", "F3", None), ("ios", "F4", None)]),
     "C08": dict(mode="conv", tags={"C08"},
-                quick=[("asa", "F1", 3000), ("asa", "F2", 8000), ("asa", "F3", 3000),
-                       ("asa", "F4", 1500), ("asa", "F7", 3000)],
+                quick=[("asa", "F1", 2000), ("asa", "F2", 6000), ("asa", "F3", 2000),
+                       ("asa", "F4", 1000), ("asa", "F7", 2000),
+                       ("ios", "F1", 2500), ("ios", "F8", 2500), ("ios", "F3", 2000), ("ios", "F4", 1000),
+                       ("ios", "F7", 1500)],
                 thorough=[("asa", "F1", None), ("asa", "F2", None), ("asa", "F3", 40000),
-                          ("asa", "F4", None), ("asa", "F7", 40000)]),
+                          ("asa", "F4", None), ("asa", "F7", 40000),
+                          ("ios", "F1", None), ("ios", "F8", 60000), ("ios", "F3", None), ("ios", "F4", None),
+                          ("ios", "F7", None)]),
     "C14": dict(mode="conv", tags={"C14"},
-                quick=[("asa", "F1", 12000), ("asa", "F4", None), ("asa", "F3", 1500)],
-                thorough=[("asa", "F1", None), ("asa", "F4", None), ("asa", "F3", 40000)]),
+                quick=[("asa", "F1", 8000), ("asa", "F4", None), ("asa", "F3", 1500),
+                       ("ios", "F1", 8000), ("ios", "F4", 4000), ("ios", "F3", 1500)],
+                thorough=[("asa", "F1", None), ("asa", "F4", None), ("asa", "F3", 40000),
+                          ("ios", "F1", None), ("ios", "F4", None), ("ios", "F3", None)]),
     "C10": dict(mode="resume", tags={"EQUIV", "FIXPOINT", "C08"},
-                quick=[("asa", "F1", 700), ("asa", "F2", 1500), ("asa", "F3", 500),
-                       ("asa", "F4", 500), ("asa", "F7", 500)],
+                quick=[("asa", "F1", 500), ("asa", "F2", 1200), ("asa", "F3", 400),
+                       ("asa", "F4", 400), ("asa", "F7", 400),
+                       ("ios", "F1", 500), ("ios", "F8", 500), ("ios", "F3", 400), ("ios", "F4", 400)],
                 thorough=[("asa", "F1", 8000), ("asa", "F2", 20000), ("asa", "F3", 6000),
-                          ("asa", "F4", None), ("asa", "F7", 8000)]),
+                          ("asa", "F4", None), ("asa", "F7", 8000),
+                          ("ios", "F1", 8000), ("ios", "F8", 8000), ("ios", "F3", 6000), ("ios", "F4", 6000)]),
 }
 
-FAM_CONSTS = {"asa": ASA_FAMS}
+IOS_FAMS = {"F1": {"MaxLen": 3}, "F3": {"MaxLen": 3}, "F4": {"MaxLen": 3}, "F7": {"MaxLen": 2},
+            "F8": {"MaxLen": 3}}
+FAM_CONSTS = {"asa": ASA_FAMS, "ios": IOS_FAMS}
 
 
 def collect_cases(plan, rep):
